@@ -89,14 +89,19 @@ def rule_writer_reader_kinds(model: Model, rule_id: str = 'C05-R1') -> RuleResul
             f = cls.methods.get(mname)
             if f is None:
                 raise AnalysisError(f"{cls_q}.{mname} not found")
-            cfg = cfg_of(model, f)
-            nz = Normalizer(model, f, cfg)
             tested: t.Set[str] = set()
-            for n in cfg.nodes:
-                if n.kind == 'cond':
-                    mt = re.match(r'^isinstance\(VAL, \{(.*)\}\)$', nz.literal(n.ast, n)[0])
-                    if mt:
-                        tested |= {x.strip() for x in mt.group(1).split(',')}
+            # kind tests on the input, in the pass itself or in the self-helpers it calls with the input
+            for g in helper_closure(model, cls, mname):
+                if g.cls is None or g.cls.qualname == CONVERTER or not isinstance(g.node, ast.FunctionDef):
+                    continue
+                gcfg = cfg_of(model, g)
+                data_params = [p_ for p_ in g.params if p_ not in ('self', 'cls')]
+                gnz = Normalizer(model, g, gcfg, param_map={data_params[0]: 'VAL'} if data_params else None)
+                for n in gcfg.nodes:
+                    if n.kind == 'cond':
+                        mt = re.match(r'^isinstance\(VAL, \{(.*)\}\)$', gnz.literal(n.ast, n)[0])
+                        if mt:
+                            tested |= {x.strip() for x in mt.group(1).split(',')}
             r.instances += 1
             miss = own - tested
             if miss:
